@@ -34,9 +34,10 @@ class SingleValueCollector:
         self._obj = obj
         self._prop_name = propName
         self._cond = threading.Condition()
-        bind(obj, **{propName: self._on_data})
+        # initialise all members before binding: another thread may set the observable at once
         self._state = self.PENDING
         self._result = None
+        bind(obj, **{propName: self._on_data})
 
     def _on_data(self, data):
         if self._state == self.CLOSED:
@@ -68,9 +69,9 @@ class SingleValueCollector:
         """Start to capture another value."""
         if self._state != self.CLOSED:
             raise RuntimeError('SingleValueCollector is still active')
-        bind(self._obj, **{self._prop_name: self._on_data})
         self._state = self.PENDING
         self._result = None
+        bind(self._obj, **{self._prop_name: self._on_data})
 
 
 class ValuesCollector(SingleValueCollector):
